@@ -4,7 +4,7 @@ from __future__ import annotations
 import ast
 
 from ..core import Ctx
-from ..symex import SUMMARIZER, expand, strip_ifexp_paths, u
+from ..symex import SUMMARIZER, expand, strip_ifexp_paths, u, main_leaf, main_path, side_paths
 
 SMO = "smoothing.py"
 MM = "matrix/measure.py"
@@ -31,50 +31,93 @@ def guards(ctx: Ctx):
     ci = ctx.repo.cls(SMO, "_SingleSidedMovingAvgSmoother")
     m = ctx.repo.lookup(ci, "_can_smooth")
     body = SUMMARIZER.summarize(m.node)
-    paths = [([(u(g), p) for g, p in gs], u(l)) for gs, l in strip_ifexp_paths(body)]
-    want = [
-        ([("base_values.size == 0", True)], "False"),
-        ([("base_values.size == 0", False), ("not self._dimension_type == DT.CAT_DATE", True)], "False"),
-        ([("base_values.size == 0", False), ("not self._dimension_type == DT.CAT_DATE", False), ("self._window > base_values.shape[-1] or self._window < 2", True)], "False"),
-        ([("base_values.size == 0", False), ("not self._dimension_type == DT.CAT_DATE", False), ("self._window > base_values.shape[-1] or self._window < 2", False)], "True"),
-    ]
+    from ..dectab import DTop, Raises
+    from ..typetab import dt_members, eval_over_types
+
     where = f"{SMO}::_SingleSidedMovingAvgSmoother._can_smooth"
-    if paths == want:
-        ctx.held("guard-table", where, "empty -> no; not CAT_DATE -> no; window > periods or window < 2 -> no; else yes", "guard table")
+    P = 5  # model: five periods on the last axis
+    bad, n, undec = [], 0, None
+    for size in (0, 3 * P):
+        for mem in dt_members(ctx.repo):
+            for w in (0, 1, 2, 3, P, P + 1, 50):
+                def extra(x, size=size, w=w):
+                    t = u(x)
+                    if t == "base_values.size":
+                        return size
+                    if t in ("base_values.shape[-1]", "base_values.shape[1]"):
+                        return P
+                    if t == "self._window":
+                        return w
+                    raise KeyError
+
+                want = size != 0 and mem == "CAT_DATE" and 2 <= w <= P
+                try:
+                    got = eval_over_types(ctx.repo, ci.module, body, {"self._dimension_type": mem}, extra)
+                except (DTop, Raises) as exc:
+                    undec = str(exc)
+                    break
+                n += 1
+                if bool(got) != want:
+                    bad.append(f"size={size} type={mem} window={w} periods={P}: {bool(got)} (specified {want})")
+            if undec:
+                break
+        if undec:
+            break
+    ctx.count("smoothing guard table rows", n)
+    if undec:
+        ctx.undecided("guard-table", where, "DECTAB: " + undec, "decision table over (empty, dimension type, window)")
     else:
-        # semantic comparison of the window guard as a set of refused windows
-        problems = []
-        leaves = {l for _g, l in paths}
-        if leaves - {"True", "False"}:
-            ctx.undecided("guard-table", where, str(paths)[:300], str(want)[:300])
-            return
-        allg = " ".join(g for gs, _l in paths for g, _p in gs)
-        for frag, msg in (
-            ("self._window < 2", "windows below 2 must be refused"),
-            ("self._window > base_values.shape[-1]", "windows wider than the number of periods (last axis) must be refused"),
-            ("DT.CAT_DATE", "only a categorical-date dimension is smoothed"),
-            ("base_values.size == 0", "an empty array is returned unchanged"),
-        ):
-            alts = {frag, frag.replace("self._window < 2", "2 > self._window"), frag.replace("self._window > base_values.shape[-1]", "base_values.shape[-1] < self._window")}
-            if not any(a in allg for a in alts):
-                problems.append(msg + f" (guard `{frag}` not found)")
-        if problems:
-            ctx.violated("guard-table", where, "; ".join(problems) + " :: " + allg[:200], "empty / not CAT_DATE / window > periods / window < 2 -> unsmoothed")
-        else:
-            ctx.undecided("guard-table", where, str(paths)[:300], str(want)[:300])
+        ctx.ob("guard-table", where, bad[:4] or f"{n} (empty, dimension type, window) cases", "smoothed iff non-empty, categorical-date, 2 <= window <= periods (last axis)", not bad,
+               "empty / not CAT_DATE / window > periods / window < 2 -> unsmoothed")
     e = expand(ctx.repo, ci, "_window", stop=lambda mm: True)
     ctx.check_expr("guard-table.window", f"{SMO}::_SingleSidedMovingAvgSmoother._window", e, "self._smoothing_dict.get('window') or 2", "default window 2")
     m = ctx.repo.lookup(ci, "smooth")
     body = SUMMARIZER.summarize(m.node)
-    ok = isinstance(body, ast.IfExp) and u(body.test) == "not self._can_smooth(values)" and u(body.body) == "values"
-    ctx.ob("identity-on-refusal", f"{SMO}::_SingleSidedMovingAvgSmoother.smooth", u(body)[:90], "values if not self._can_smooth(values) else <smoothed>", ok, "when smoothing is refused the unsmoothed values are returned unchanged")
+    from ..stmts import check_side_paths
+
+    check_side_paths(ctx, "identity-on-refusal", f"{SMO}::_SingleSidedMovingAvgSmoother.smooth", body, [("not self._can_smooth(values)", "values")], "when smoothing is refused the unsmoothed values are returned unchanged")
     sm = ctx.repo.cls(SMO, "Smoother")
     fac = ctx.repo.lookup(sm, "factory")
     body = SUMMARIZER.summarize(fac.node)
-    leaf = strip_ifexp_paths(body)[-1][1]
-    ctx.check_expr("factory", f"{SMO}::Smoother.factory", leaf, "_SingleSidedMovingAvgSmoother(smoothing_dict=dimension.smoothing_dict, dimension_type=dimension.dimension_type)", "the smoother carries the spec and the type of the dimension it was built from")
-    g = [u(gs[-1][0]) for gs, _l in strip_ifexp_paths(body) if gs]
-    ctx.ob("factory.function", f"{SMO}::Smoother.factory", g[:1], "[\"(dimension.smoothing_dict.get('function') or 'one_sided_moving_avg') != 'one_sided_moving_avg'\"]", g[:1] == ["(dimension.smoothing_dict.get('function') or 'one_sided_moving_avg') != 'one_sided_moving_avg'"], "default function one_sided_moving_avg; anything else is refused")
+    from ..dectab import Sym, SymInterp, eval_ctor
+
+    where = f"{SMO}::Smoother.factory"
+    bad, n, undec = [], 0, None
+    target = ctx.repo.cls(SMO, "_SingleSidedMovingAvgSmoother")
+    init = ctx.repo.lookup(target, "__init__")
+    for fn_name, want_ok in ((None, True), ("one_sided_moving_avg", True), ("two_sided", False), ("", True)):
+        sd = {} if fn_name is None else {"function": fn_name}
+
+        def atoms(x, sd=sd):
+            t = u(x)
+            if t == "dimension.smoothing_dict":
+                return sd
+            if isinstance(x, ast.Name) and x.id == "_SingleSidedMovingAvgSmoother":
+                return "_SingleSidedMovingAvgSmoother"
+            raise KeyError
+
+        try:
+            callee, args, kw = eval_ctor(SymInterp(atoms), body)
+            got_ok = callee == "_SingleSidedMovingAvgSmoother"
+            if got_ok:
+                bound = dict(zip(init.params, [repr(a) for a in args]))
+                bound.update({k: repr(v) for k, v in kw.items()})
+                want_args = {"smoothing_dict": repr(sd), "dimension_type": "dimension.dimension_type"}
+                if bound != want_args:
+                    bad.append(f"function={fn_name!r}: constructed with {bound} (specified {want_args})")
+        except Raises:
+            got_ok = False
+        except DTop as exc:
+            undec = str(exc)
+            break
+        n += 1
+        if got_ok != want_ok:
+            bad.append(f"function={fn_name!r}: {'smoother' if got_ok else 'refused'} (specified {'smoother' if want_ok else 'refused'})")
+    if undec:
+        ctx.undecided("factory", where, "DECTAB: " + undec, "decision table over the smoothing function name")
+    else:
+        ctx.ob("factory", where, bad or f"{n} function-name cases", "default / 'one_sided_moving_avg' -> smoother carrying the dimension's spec and type; any other name is refused", not bad,
+               "the smoother carries the spec and the type of the dimension it was built from; default function one_sided_moving_avg")
     dim = ctx.repo.cls("dimension.py", "Dimension")
     e = expand(ctx.repo, dim, "smoothing_dict", stop=lambda mm: True)
     ctx.check_expr("factory", "dimension.py::Dimension.smoothing_dict", e, "self._dimension_transforms_dict.get('smoother') or {}")
@@ -105,17 +148,30 @@ def wiring(ctx: Ctx):
         ctx.check_expr("wiring.blocks", f"{short}::{cname}.{member}", e, want, "exactly these blocks are smoothed (series run along the columns axis; inserted columns and intersections are not series)")
         ctx.count("smoothed-variant members")
     ctx.require_min("smoothed-variant members", 8)
+    # which BLOCKS of the smoothed column proportions pass through the smoother (whatever the spelling): the series run
+    # along the columns axis of the base values and of the inserted rows; inserted columns and intersections are not series
+    ci = ctx.repo.cls(MM, "_ColumnProportionsSmoothed")
+    for member, smoothed in (("_base_values", True), ("_subtotal_rows", True), ("_subtotal_columns", False), ("_intersections", False)):
+        if ctx.repo.lookup(ci, member) is None:
+            ctx.undecided("wiring.smoothed-blocks", f"{MM}::_ColumnProportionsSmoothed.{member}", "member not found", "")
+            continue
+        e = expand(ctx.repo, ci, member, stop=lambda mm: mm.name in ("_smoother",))
+        has = any(isinstance(n, ast.Call) and isinstance(n.func, ast.Attribute) and n.func.attr == "smooth" for n in ast.walk(e))
+        ctx.ob("wiring.smoothed-blocks", f"{MM}::_ColumnProportionsSmoothed.{member}", "passes through smooth()" if has else "not smoothed", "smoothed" if smoothed else "not smoothed", has == smoothed,
+               "base values and inserted rows are series along the columns axis; inserted columns and intersections are not")
     # ... and nothing else is smoothed
-    sites = []
+    allowed = {(MM, "_ColumnIndexSmoothed"), (MM, "_ColumnProportionsSmoothed"), (MM, "_MeansSmoothed"), (MM, "_ScaleMeanSmoothed"), (SM, "_MeansSmoothed")}
+    sites = {}
     for m in ctx.repo.all_members():
         for n in ast.walk(m.node):
             if isinstance(n, ast.Call) and isinstance(n.func, ast.Attribute) and n.func.attr == "smooth":
-                sites.append(m.qual)
-    want_sites = sorted([
-        f"{MM}::_ColumnIndexSmoothed.blocks", f"{MM}::_ColumnProportionsSmoothed._base_values", f"{MM}::_ColumnProportionsSmoothed._subtotal_rows",
-        f"{MM}::_MeansSmoothed.blocks", f"{MM}::_ScaleMeanSmoothed._proportions", f"{MM}::_ScaleMeanSmoothed._proportions", f"{SM}::_MeansSmoothed.base_values",
-    ])
-    ctx.ob("wiring.sites", "package: calls of .smooth()", sorted(sites), want_sites, sorted(sites) == want_sites, "the smoother is applied to the listed measures and to nothing else")
+                sites.setdefault((m.cls.module.path.split("cr/cube/")[-1], m.cls.name), []).append((m, n))
+    outside = sorted(k for k in sites if k not in allowed)
+    if outside:
+        ctx.violated("wiring.sites", "package: calls of .smooth()", [f"{a}::{b}" for a, b in outside], sorted(f"{a}::{b}" for a, b in allowed), "the smoother is applied to the listed measures and to nothing else")
+    else:
+        ctx.ob("wiring.sites", "package: calls of .smooth()", sorted(f"{a}::{b}" for a, b in sites), sorted(f"{a}::{b}" for a, b in allowed), True if set(sites) == allowed else None, "the smoother is applied to the listed measures and to nothing else")
+    smoothed_scale_mean_input(ctx, sites.get((MM, "_ScaleMeanSmoothed"), []))
     sl = ctx.repo.cls("cubepart.py", "_Slice")
     for prop, meas, asm in (
         ("smoothed_column_index", "smoothed_column_index", "_assemble_matrix"),
@@ -129,6 +185,47 @@ def wiring(ctx: Ctx):
     for prop, c, extra in (("smoothed_column_index", "_ColumnIndexSmoothed", ""), ("smoothed_column_proportions", "_ColumnProportionsSmoothed", ""), ("smoothed_means", "_MeansSmoothed", ""), ("smoothed_columns_scale_mean", "_ScaleMeanSmoothed", ", MO.COLUMNS")):
         e = expand(ctx.repo, som, prop, stop=lambda mm: True)
         ctx.check_expr("wiring.public", f"{MM}::SecondOrderMeasures.{prop}", e, f"{c}(self._dimensions, self, self._cube_measures{extra})")
+
+
+def smoothed_scale_mean_input(ctx: Ctx, calls):
+    """"The smoothed scale mean is the scale mean of the SMOOTHED proportions": what is handed to the smoother inside
+    _ScaleMeanSmoothed must not already depend on the numeric values of the categories (FLOW reads of the argument);
+    if it does, the mean was taken first and the moving average is applied to the 1-D means - a different quantity
+    as soon as a category without a numeric value varies over the periods."""
+    from ..stmts import resolver
+    from .common import slice_measures_obj
+
+    where = f"{MM}::_ScaleMeanSmoothed [input of smooth()]"
+    if not calls:
+        ctx.undecided("wiring.scale-mean-input", where, "no smooth() call in the class", "smooth(<column proportions block>)")
+        return
+    som = slice_measures_obj(ctx)
+    objs = ctx.flow.member_val(som, "smoothed_columns_scale_mean").objs
+    if not objs:
+        ctx.undecided("wiring.scale-mean-input", where, "FLOW: no object for smoothed_columns_scale_mean", "")
+        return
+    obj = next(iter(objs))
+    for m, call in calls:
+        if not call.args:
+            continue
+        res = resolver(m.node)
+        arg = call.args[0]
+        # a comprehension / loop variable stands for an element of what it iterates over
+        if isinstance(arg, ast.Name):
+            for n in ast.walk(m.node):
+                if isinstance(n, (ast.comprehension, ast.For)) and isinstance(n.target, ast.Name) and n.target.id == arg.id:
+                    arg = n.iter
+        reads = set()
+        for variant in res(arg):
+            reads |= set(ctx.flow.eval(variant, obj, m, {}).reads)
+        numeric = sorted(r for r in reads if "numeric_value" in r)
+        data = sorted(r for r in reads if not r.startswith(("Dimension.", "Element.", "_OrderSpec.", "ORDER", "FIELD:")))[:4]
+        if numeric:
+            ctx.violated("wiring.scale-mean-input", where + f" [{m.name}]", f"the smoothed operand depends on {numeric}", "the 2-D column proportions (no numeric values involved)",
+                         "the scale mean was taken BEFORE smoothing: the result is the moving average of the means, not the mean of the smoothed proportions")
+        else:
+            ctx.held("wiring.scale-mean-input", where + f" [{m.name}]", f"operand reads {data}", "the smoothed operand does not depend on the numeric values")
+        ctx.count("scale-mean smoother inputs")
 
 
 def footprint(ctx: Ctx):
